@@ -83,7 +83,7 @@ func init() {
 			} else {
 				select {
 				case <-ch:
-				case <-time.After(30 * time.Millisecond):
+				case <-time.After(80 * time.Millisecond):
 				}
 			}
 		} else {
@@ -541,7 +541,7 @@ func Check(env *core.Env, rep *core.Report) *core.Result {
 	}
 	// wider fan-in (not in the 3-stage model): 6 producers, one consumer
 	fan := dagRow{N: 7, Deps: [][]int{{}, {}, {}, {}, {}, {}, {1, 2, 3, 4, 5, 6}}, Anc: [][]int{{}, {}, {}, {}, {}, {}, {1, 2, 3, 4, 5, 6}}}
-	for k := 0; k < reps*2; k++ {
+	for k := 0; k < reps*8; k++ {
 		dcases = append(dcases, dcase{fan, k})
 	}
 	core.Parallel(len(dcases), 8, func(i int) {
